@@ -5,7 +5,7 @@ from lib import symx
 LEVEL = 'model_checking'
 MANIFEST = {'category': 'model_checking', 'engine': 'symx+z3',
  'technique': 'symbolic execution of the real extract_message/received_message/sent_message/_fast_access over a typed fake gdb (struct layouts with byte offsets) with symbolic closure contents; z3 floating-point/bit-vector lemma for the fixed-point expression the code hands to gdb; differential against log mode through a reference printer',
- 'text': 'For every signature of <= 3 type codes over i u f s o n a h (optional version digit, optional ? markers), every position of every kind (in particular arguments after an array), symbolic 32-bit values / ids, null and non-null strings and objects, typed and untyped new ids, arrays of 0..3 elements, client and server side, sent and received: z3 proves the extracted Message has one argument per type code, in order, of the right class with the right payload, and the right name, direction, sender id, interface and connection id. The C expression string the code builds for fixed-point values is parsed and proved equal to f/256 for all 2^32 values (QF_BVFP). Agreement with log mode: the closure is rendered by a reference wl_closure_print and decoded by the real parse.message; both Messages agree on everything the text retains.',
+ 'text': 'For every signature of <= 3 type codes over i u f s o n a h (optional version digit, optional ? markers), every position of every kind (in particular arguments after an array), symbolic 32-bit values / ids, null and non-null strings and objects, typed and untyped new ids, arrays of 0..3 elements, client and server side, sent and received: z3 proves the extracted Message has one argument per type code, in order, of the right class with the right payload, and the right name, direction, sender id, interface and connection id. The C expression string the code builds for fixed-point values is parsed and proved equal to f/256 for all 2^32 values (QF_BVFP). Agreement with log mode: the closure is rendered by a reference wl_closure_print and decoded by the real parse.message; both Messages agree on everything the text retains. Also: a dispatch frame of the other kind further out on the stack (nested compositor) and an earlier, resolved wl_registry.bind with the same new id must not influence what is reported.',
  'note': 'Trusted: z3, lib/symx.py, lib/fakegdb/gdb.py (struct layouts from libwayland headers; (double)(void*)x modelled as a bit reinterpretation), lib/cexpr.py. Signatures longer than 3 codes (quick) / 4 (thorough) are outside; documented log/GDB differences (null strings, array contents) are don\'t-cares.'}
 EXPLANATION = MANIFEST['text']
 ASSUMPTIONS = ['libwayland struct layouts as in lib/fakegdb + harness/gdbworld.py', 'gdb evaluates (double)(void*)x as a reinterpretation of the 64-bit pattern', 'time_now() stubbed']
